@@ -141,9 +141,9 @@ def staterrorSigmas (P : Prim K) (s : Spec K) (cfg : Config) (n : String) :
   let masks := cfg.samples.map fun sm => maskTab s cfg n .staterror sm
   let participating := (cfg.samples.zip masks).filter fun (_, m) => m.any id
   match participating with
-  | [] => .error .pyKeyError
+  | [] => .error .pyIndexError   -- `np.sum([], axis=0)` is a scalar; `nomsall[binnr]` raises IndexError
   | (_, mask0) :: rest =>
-    if rest.any (fun (_, m) => m != mask0) then .error .pyAssertion else
+    if rest.any (fun (_, m) => m != mask0) then .error .invalidModifier else
     let nmain := cfg.nmain
     let nomsall := participating.foldl (fun acc (sm, _) => vecAdd acc (nomTab s cfg sm)) (List.replicate nmain 0)
     let sq := cfg.samples.foldl (fun acc sm =>
@@ -221,6 +221,14 @@ def reduceOne (name : String) (reqs : List (Req K)) (user : Option (ParCfg K)) :
     let fixed := match u.fixed with | some b => FixedV.all b | none => r.fixed
     let truthy (o : Option (Option (List K))) : Option (List K) :=
       match o with | some (some l) => if l.isEmpty then none else some l | _ => none
+    -- after the merge: every configured list has `n_parameters` entries; `None` only allowed for `sigmas`
+    let bad {α : Type} (o : Option (Option (List α))) (noneOK : Bool) : Bool :=
+      match o with
+      | none => false                       -- key not used by this parameter set
+      | some none => !noneOK                -- Python `None`
+      | some (some l) => l.length != r.n
+    if bad inits false || bad bounds false || bad aux false || bad fac false || bad sig true then
+      throw .invalidModel
     pure { name := name, n := r.n, isScalar := r.isScalar, ptype := r.ptype,
            inits := inits.getD none, bounds := bounds.getD none, fixed := fixed,
            auxdata := aux.getD none, sigmas := truthy sig,
